@@ -24,7 +24,10 @@ import (
 
 func init() { props["C07"] = genC07 }
 
-var c07Keyspaces = []string{"ks1", "KS1", "Ks1", "\"ks1\"", "\"Ks1\"", "\"KS1\"", "other", "\"with \"\"q\"\"\"", "system_auth", "x_y_z"}
+var c07Keyspaces = []string{"ks1", "KS1", "Ks1", "\"ks1\"", "\"Ks1\"", "\"KS1\"", "other", "\"with \"\"q\"\"\"", "system_auth", "x_y_z",
+	// names that end like a compression algorithm or start like a version: whatever the session table is keyed by must keep
+	// (version, keyspace, compression) apart
+	"ks1lz4", "ks1snappy", "lz4", "snappy", "ks1lz4", "ks1snappy"}
 
 func genC07(ctx *Ctx) {
 	hsPhase(ctx)
